@@ -15,6 +15,7 @@ import collections
 from vk import core, explore, lifecycle, scen, sim, monitors as M
 
 NOTIF = scen.Recorder.NOTIF
+FLAVOURS = ["empty", "assert", "multiline", "non-ascii", "str-raises"]
 
 
 class DiffLifecycle(lifecycle.Lifecycle):
@@ -50,6 +51,7 @@ def _mk(req, acc, raising, nth):
     if raising:
         scn.raising = list(raising)
         scn.nth = nth
+        scn.exc_flavour = nth  # None (an ordinary exception with a message) or the kind of exception raised
     return scn
 
 
@@ -235,6 +237,14 @@ def run(ctx: core.Ctx) -> core.Result:
         for ev in NOTIF:
             items.append((rq, ac, (ev,), None))
         items.append((rq, ac, tuple(NOTIF), None))
+    # what is raised: exceptions without text, with multi-line / non-ASCII / format-like text, failed
+    # asserts and exceptions whose text cannot even be produced - for every event alone and all at once
+    flav_pairs = [("echo-release", "none"), ("release", "release"), ("echo-abort", "abort")] if ctx.quick else pairs
+    for rq, ac in flav_pairs:
+        for fl in FLAVOURS:
+            for ev in NOTIF:
+                items.append((rq, ac, (ev,), fl))
+            items.append((rq, ac, tuple(NOTIF), fl))
     # D=1 exploration with everything raising on a subset (quick) / all (thorough)
     deep_pairs = [("release", "none"), ("echo-release", "none"), ("abort", "none"), ("release", "release"), ("echo-abort", "abort")] if ctx.quick else pairs
     n = core.NPROC * 4
